@@ -23,15 +23,58 @@ type Clause struct {
 }
 
 func (c *Clause) hasTag(p string) bool {
-	if len(c.Tags) == 0 {
-		return true
-	}
+	n := 0
 	for _, t := range c.Tags {
+		if strings.HasPrefix(t, "g:") {
+			continue
+		}
+		n++
 		if t == p {
 			return true
 		}
 	}
-	return false
+	return n == 0
+}
+
+// group: clauses tagged [g:name] are verified in a separate pass together with the untagged ones
+func (c *Clause) group() string {
+	for _, t := range c.Tags {
+		if strings.HasPrefix(t, "g:") {
+			return t[2:]
+		}
+	}
+	return ""
+}
+
+func (s *FuncSpec) groups() []string {
+	seen := map[string]bool{}
+	var out []string
+	add := func(c *Clause) {
+		if g := c.group(); g != "" && !seen[g] {
+			seen[g] = true
+			out = append(out, g)
+		}
+	}
+	for _, c := range s.Requires {
+		add(c)
+	}
+	for _, c := range s.Ensures {
+		add(c)
+	}
+	for _, c := range s.Hints {
+		add(c)
+	}
+	var ks []int
+	for k := range s.Loops {
+		ks = append(ks, k)
+	}
+	sort.Ints(ks)
+	for _, k := range ks {
+		for _, c := range s.Loops[k].Inv {
+			add(c)
+		}
+	}
+	return out
 }
 
 type LoopSpec struct {
@@ -89,7 +132,7 @@ type PkgSpec struct {
 	Files   []string
 }
 
-var clauseRe = regexp.MustCompile(`^(requires|ensures|invariant|decreases|assigns|hint|assert)(\[[A-Za-z0-9, ]+\])?\s+(.*)$`)
+var clauseRe = regexp.MustCompile(`^(requires|ensures|invariant|decreases|assigns|hint|assert)(\[[A-Za-z0-9:, ]+\])?\s+(.*)$`)
 
 type rawLine struct {
 	text string
